@@ -181,6 +181,34 @@ pub fn run(args: &Args) {
       ("jsx-attribute", "const j = <div a={", "} />;"),
       ("default-parameter", "function d(p = ", ") { return p; }"),
     ];
+    // nested statements, too: each opener with its closer
+    let stmt_nestings: &[(&str, &str, &str)] = &[
+      ("ifs", "if (a) { ", " }"),
+      ("if-elses", "if (a) { b(); } else { ", " }"),
+      ("loops", "for (const k of ks) { ", " }"),
+      ("whiles", "while (a) { if (b) break; ", " }"),
+      ("switches", "switch (s) { case 1: ", " break; default: }"),
+      ("tries", "try { ", " } catch (e) { g(e); }"),
+      ("finallys", "try { f(); } finally { ", " }"),
+      ("functions", "function f() { ", " return 1; }"),
+      ("methods", "class C { m() { ", " } }"),
+      ("getters", "const o = { get g() { ", " return 1; } };"),
+      ("arrow-bodies", "const a = () => { ", " };"),
+      ("labels", "L: { ", " break L; }"),
+      ("derived-constructors", "class D extends B { constructor() { super(); ", " } }"),
+    ];
+    for (sname, open, close) in stmt_nestings {
+      let mk = |d: usize| format!("{}x();{}\n", rep(open, d), rep(close, d));
+      let (d1, d2) = (12usize, 24usize);
+      let a = run_probe(&probe, "ts", &mk(d1), limit);
+      let b = run_probe(&probe, "ts", &mk(d2), Duration::from_secs(60));
+      let shape = format!("nested-{}", sname);
+      out.eval(&format!("nest:{}", shape), true, json!({"shape": shape, "depths": [d1, d2], "seconds": [a.secs, b.secs], "status": [a.status, b.status]}));
+      out.count("nesting-in=statements");
+      if a.status == "ok" && (b.status == "timeout" || (b.status == "ok" && b.secs > 2.0 && b.secs > 20.0 * a.secs.max(0.05))) {
+        out.found("C01", &format!("exponential-in-depth:{}", shape), &shape, json!({"meta": {"shape": shape, "ext": "ts", "src": mk(d2).chars().take(300).collect::<String>()}, "depths": [d1, d2], "seconds": [a.secs, b.secs], "status": b.status}));
+      }
+    }
     for (nname, mk) in &nestings {
       for (wname, pre, post) in wrappers {
         if *nname == "awaited-calls" && *wname != "async-loop" {
